@@ -209,11 +209,15 @@ class NumpyShim:
             return tot / len(x)
         return _np.mean(x, *a, **k)
 
-    def searchsorted(self, arr, v, *a, **k):
-        if is_sym(v) or (isinstance(arr, (list, tuple, SymArr)) and any(is_sym(e) for e in arr)):
-            assert not a and not k      # side="left"
-            return sum(1 for e in arr if e < v)
-        return _np.searchsorted(arr, v, *a, **k)
+    def searchsorted(self, arr, v, side="left", **k):
+        many = isinstance(v, (list, tuple, SymArr))
+        if is_sym(v) or (many and any(is_sym(e) for e in v)) or (isinstance(arr, (list, tuple, SymArr)) and any(is_sym(e) for e in arr)):
+            assert not k
+
+            def count(vi):
+                return sum(1 for e in arr if (e < vi if side == "left" else e <= vi))
+            return SymArr([count(vi) for vi in v]) if many else count(v)
+        return _np.searchsorted(arr, v, side=side, **k)
 
     def insert(self, arr, index, v, *a, **k):
         if is_sym(v) or isinstance(arr, SymArr):
